@@ -156,6 +156,7 @@ pub fn c06() -> i32 {
                 }
             }
         }
+        let scns = if t { crate::props::drop::vary(scns) } else { scns };
         let n = scns.len();
         let cfg = ExploreCfg { k: Some(0), wall: Duration::from_secs(if t { 900 } else { 40 }), ..Default::default() };
         let out = explore(&scns, &cfg, &judge);
